@@ -47,12 +47,31 @@ Record wstep (s s' : wstate) : Prop := {
   ws_prev : wprev s' <> None;
   ws_hw : pos_le (hw s) (hw s');
   ws_len : (length (wrest s') <= length (wrest s))%nat;
-  ws_strict : wrest s <> [] -> (length (wrest s') < length (wrest s))%nat }.
+  ws_strict : wrest s <> [] -> (length (wrest s') < length (wrest s))%nat;
+  (* the tokens consumed in between; the previous token is the last of them *)
+  ws_cons : exists consumed, wrest s = consumed ++ wrest s' /\
+                             wprev s' = last (map Some consumed) (wprev s) }.
+
+Lemma last_cons_dflt {A} (l : list A) : forall x d, last (x :: l) d = last l x.
+Proof.
+  induction l as [|y r IH]; intros x d; [reflexivity|].
+  change (last (x :: y :: r) d) with (last (y :: r) d). rewrite !IH. reflexivity.
+Qed.
+
+Lemma last_map_app {A} (a b : list A) (d : option A) :
+  last (map Some (a ++ b)) d = last (map Some b) (last (map Some a) d).
+Proof.
+  revert d. induction a as [|x r IH]; intros d; [reflexivity|].
+  cbn [app map]. rewrite !last_cons_dflt. apply IH.
+Qed.
 
 Lemma wstep_trans a b c : wstep a b -> wstep b c -> wstep a c.
 Proof.
-  intros [A1 A2 A3 A4 A5] [B1 B2 B3 B4 B5]. split; auto; [eapply pos_le_trans; eauto|lia|].
-  intros H. specialize (A5 H). lia.
+  intros [A1 A2 A3 A4 A5 (c1 & A6 & A7)] [B1 B2 B3 B4 B5 (c2 & B6 & B7)].
+  split; auto; [eapply pos_le_trans; eauto|lia| |].
+  - intros H. specialize (A5 H). lia.
+  - exists (c1 ++ c2). split; [rewrite A6, B6, app_assoc; reflexivity|].
+    rewrite B7, A7, last_map_app. reflexivity.
 Qed.
 Lemma wstep_live s s' : wstep s s' -> wlive s'.
 Proof. intros H. right. apply H. Qed.
@@ -87,6 +106,7 @@ Proof.
       * apply pos_le_refl.
       * rewrite Hr. cbn. lia.
       * intros Hne. exfalso. apply Hne. exact Hr.
+      * exists []. split; reflexivity.
     + unfold tok_in, range_ok. cbn. rewrite <- Hh. repeat split; auto using pos_le_refl.
     + split; [reflexivity|]. split; [intros Hne; exfalso; apply Hne; reflexivity|]. cbn. symmetry. exact Hh.
   - cbn in Hc. destruct Hc as (H1 & (H2 & H3 & H4) & H5 & H6).
@@ -98,6 +118,7 @@ Proof.
     + rewrite Hh. eapply pos_le_trans; eauto.
     + rewrite Hr. cbn. lia.
     + intros _. rewrite Hr. cbn. lia.
+    + exists [t]. rewrite Hr. split; reflexivity.
     + split; [|split; [reflexivity|split; [intros _; cbn; lia|reflexivity]]].
       unfold tok_in, range_ok. rewrite Hh. repeat split; auto using pos_le_refl.
 Qed.
